@@ -10,7 +10,7 @@ CHECKS = {
  "C02": dict(section="4.2", technique="exhaustive enumeration of header contents x encodings within a deviation bound x byte-string wrappers x carrier positions; retention, re-encoding and crypto-structure slots checked on the real crate",
    text="Every encoding within 1 (quick) / 2 (thorough) deviations of 20 header contents, plus the three empty forms, carried definite / wide-head / chunked at 21 protected carrier positions and on its own through ProtectedHeader::from_cbor_bstr: original_data and parsed view equal the reference at every nesting level, the re-encoding carries exactly the wire bytes, and every to-be-signed / MAC / AEAD structure obtainable from the decoded value carries them in its protected slot(s)."),
  "C03": dict(section="4.3", technique="exhaustive product of contexts x protected-header forms x signer forms x bstr length classes x payload placement over every API route; byte equality with an independent deterministic encoder",
-   text="All tuples (3 contexts x 18 body forms x {absent, 18 signer forms} x AAD/payload length classes 0..65536 x embedded/detached/absent x 1..3 signers at every index) through sig_structure_data, tbs_data, tbs_detached_data and the closure argument of every create/add/try/verify variant; documented panics iff documented; injectivity table."),
+   text="All tuples (3 contexts x 20 body forms x {absent, 20 signer forms}, one built header per registered algorithm x AAD/payload length classes 0..65536 x embedded/detached/absent x 1..3 signers at every index) through sig_structure_data, tbs_data, tbs_detached_data and the closure argument of every create/add/try/verify variant; documented panics iff documented; injectivity table."),
  "C04": dict(section="4.4", technique="exhaustive product {MAC, MAC0} x protected forms x bstr length classes x payload presence over every API route; byte equality with an independent deterministic encoder",
    text="All tuples through mac_structure_data, create_tag, try_create_tag and verify_tag on built and decoded messages; MAC/MAC0 separation; no-payload refusal without calling the closure."),
  "C05": dict(section="4.5", technique="exhaustive product of five contexts x protected forms x AAD length classes x ciphertext presence over every carrier and API route; byte equality with an independent deterministic encoder",
@@ -22,7 +22,7 @@ CHECKS = {
  "C08": dict(section="4.8", technique="exhaustive enumeration of bounded header maps (explicit-state tree search) with differential check against an independent reference decoder",
    text="Every header map with <= 3 (quick) / 4 (thorough) entries over a ~150-pair alphabet (each rule satisfied and violated alone), in every order, at up to 33 carrier positions, every registered header label and its neighbours with every value shape, wide maps of 9..300 entries, all byte strings of <= 2/3 bytes, plus all encodings within 1-2 deviations of small maps, is decoded by the real crate and compared (accept/reject and every field) with an independent reference."),
  "C09": dict(section="4.9", technique="exhaustive enumeration of arrays over a slot alphabet (explicit-state product search), each decoded as all eight structure types, compared with an independent reference",
-   text="All arrays of arity 3,4,5 over a 49-value slot alphabet (13 values for arity 5 in quick), lists of 17/40 nested elements with the fault first / middle / last, all byte strings of <= 2/3 bytes, and arity 0,1,2,6,7 over a reduced one, every non-array kind, decoded as each of the 8 structure types untagged and tagged; accept/reject and every field compared with the reference CDDL rules; encodings within 1-2 deviations."),
+   text="All arrays of arity 3,4,5 over a 58-value slot alphabet (13 values for arity 5 in quick, 49 in thorough), every registered algorithm at every alg position of a representative of each structure, opaque contents at every head-width threshold and with CBOR-/DER-/JSON-looking bytes in every byte-string slot, lists of 17/40 nested elements with the fault first / middle / last, all byte strings of <= 2/3 bytes, and arity 0,1,2,6,7 over a reduced one, every non-array kind, decoded as each of the 8 structure types untagged and tagged; accept/reject and every field compared with the reference CDDL rules; encodings within 1-2 deviations."),
  "C10": dict(section="4.10", technique="exhaustive enumeration of bounded key maps and key sets (explicit-state tree search) against an independent reference decoder",
    text="Every COSE_Key map with <= 3/4 entries over a ~70-pair alphabet in every order (kty at every position, absent, reserved, duplicated), as a key and inside a key set; every key type x every registered key-parameter label x every value shape with the label before and after kty; all key sets of 0..3 valid/invalid elements; encodings within 1-2 deviations."),
  "C11": dict(section="4.11", technique="exhaustive enumeration of per-field palette products of in-memory values for every type; real encoder output read by an independent CBOR parser and compared with a reference encoder",
@@ -34,7 +34,7 @@ CHECKS = {
  "C14": dict(section="4.14", technique="exhaustive product 6 types x 16 tags x head widths x bodies x tagging depth through both entry points",
    text="Exact iff of the statement for every combination, plus bytewise to_tagged_vec == tag head || to_vec and tagged round trip."),
  "C15": dict(section="4.15", technique="exhaustive enumeration of an integer boundary lattice and window x interpreting positions x head widths against exact-arithmetic reference",
-   text="~1.3k lattice integers in [-2^64, 2^64-1] plus a window (+-3000 quick / +-70000 thorough) at 45 positions and the 33 header carrier positions under every head width: exact value or out-of-range error; extras preserved; re-encoding reads back as the same integer with a minimal head."),
+   text="~1.3k lattice integers in [-2^64, 2^64-1] plus a window (+-3000 quick / +-70000 thorough) at 49 positions and the 33 header carrier positions under every head width: exact value or out-of-range error; extras preserved; re-encoding reads back as the same integer with a minimal head."),
  "C16": dict(section="4.16", technique="exhaustive enumeration of all pairs and triples over a boundary-crossing label set for Label and all 12 registry label instantiations",
    text="Order laws (Eq-consistency, antisymmetry, partial_cmp, transitivity on all triples) and agreement of cmp / cmp_canonical with bytewise / length-first comparison of independently produced deterministic encodings."),
  "C17": dict(section="4.17", technique="exhaustive enumeration of [-70000,70000] + 64-bit extremes over all 16 registry enums and all label-typed decode positions against a registry snapshot",
